@@ -433,7 +433,11 @@ class _IncomingPacketHandler(Thread):
     def __init__(self, cf):
         Thread.__init__(self)
         self.cf = cf
+        # The list is never changed in place: the run loop and callers on
+        # other threads may be iterating over it. Writers replace it while
+        # holding the lock.
         self.cb = []
+        self._cb_lock = Lock()
 
     def add_port_callback(self, port, cb):
         """Add a callback for data that comes on a specific port"""
@@ -452,8 +456,10 @@ class _IncomingPacketHandler(Thread):
         possibility to add a mask for channel and port for multiple
         hits for same callback.
         """
-        self.cb.append(_CallbackContainer(port, port_mask,
-                                          channel, channel_mask, cb))
+        with self._cb_lock:
+            self.cb = self.cb + [_CallbackContainer(port, port_mask,
+                                                    channel, channel_mask,
+                                                    cb)]
 
     def remove_header_callback(self, cb, port, channel, port_mask=0xFF,
                                channel_mask=0xFF):
@@ -462,11 +468,12 @@ class _IncomingPacketHandler(Thread):
         possibility to add a mask for channel and port for multiple
         hits for same callback.
         """
-        for port_callback in self.cb:
-            if port_callback.port == port and port_callback.port_mask == port_mask and \
-                    port_callback.channel == channel and port_callback.channel_mask == channel_mask and \
-                    port_callback.callback == cb:
-                self.cb.remove(port_callback)
+        with self._cb_lock:
+            self.cb = [
+                port_callback for port_callback in self.cb
+                if not (port_callback.port == port and port_callback.port_mask == port_mask and
+                        port_callback.channel == channel and port_callback.channel_mask == channel_mask and
+                        port_callback.callback == cb)]
 
     def run(self):
         while True:
